@@ -54,8 +54,26 @@ def parseVals (s : String) : Option (Option (List Bytes)) :=
 def ipTag (ip : Bytes) : String :=
   if ip.length == 4 then "v4" else if isV4Mapped ip then "v4mapped" else if ip.length == 16 then "v6" else "badip"
 
+def natList (s : String) : Option (List Nat) :=
+  if s == "-" then some [] else (s.splitOn ",").mapM (·.toNat?)
+
+/-- op `rsp <answer ttls> <authority ttls> <extra ttls> <packed length | E>`; result `<status> <content-type> <max-age> <content-length>` | `err` -/
+def runRsp (an : List Nat) (plen : Option Nat) (impl : String) : Ans :=
+  let model := match dnsMsgToResponse an plen with
+    | some r => toString r.status ++ " " ++ r.contentType ++ " " ++ toString r.maxAge ++ " " ++ toString r.contentLength
+    | none => "err"
+  let want := match plen with
+    | none => "err"
+    | some n => "200 application/dns-message " ++ toString (an.foldl min (an.headD 0)) ++ " " ++ toString n
+  { model := model, verdict := if impl == want then "ok" else "FAIL:response-ttl"
+    tags := ["rsp"] ++ (if an.length ≥ 2 then ["nt"] else []) }
+
 def run (op impl : String) : Ans :=
   match op.splitOn " " with
+  | ["rsp", an, _ns, _ex, pl] =>
+    match natList an with
+    | some a => runRsp a (if pl == "E" then none else pl.toNat?) impl
+    | none => { model := "bad-op", verdict := "skip" }
   | ["doh", method0, dv, bh, ras, cas, wh, u] =>
     let method := if method0 == "-" then "" else method0
     match parseVals dv, bytesOfHex bh, parseIp ras, parseIp cas with
